@@ -1,7 +1,8 @@
 (* C12 -- MIRP graph enforces load/unload alternation and carries correct arc data.
    Property theorems only; proofs live in theories/Mirp_graph_facts.v. *)
 From Coq Require Import QArith.
-From VQ Require Import Base Mirp Mirp_facts Mirp_graph_facts.
+From Coq Require Import Lia.
+From VQ Require Import Base Mirp Mirp_facts Mirp_graph_facts Mirp_arcset_facts.
 Local Open Scope Q_scope.
 
 (* 1. Alternation, over EVERY history of the four operations (any order, any repetition, including
@@ -70,3 +71,70 @@ Theorem C12_load_of_built_graph : forall size H ops path,
   Forall (fun l => l == 0 \/ l == size) (loads g 0 path).
 Proof. intros. apply load_in_0_size; auto. apply graph_invariant; auto. Qed.
 Print Assumptions C12_load_of_built_graph.
+
+(* 3. The exact arc set of the canonical build order (what mirp_g1.get_mirp and the random generator do):
+   add_nodes for every port (pairwise distinct names, rate <> 0, cargo fits every tank), then
+   add_travel_arcs (speed <> 0, a distance for every (supply port, demand port) pair, a fee for every
+   port), add_exit_arcs, add_entry_arcs.  Then
+   - no call raises; add_nodes returns the visit names of the port;
+   - the node table is Depot, the visits of every port in order (C11_nodes), then Dum0..Dum(n-1), one per
+     demand visit whose window ends before the entry limit (`c_early`, in port order then visit order);
+   - the arc dict has unique keys and every entry is filed under the positions of its endpoints;
+   - `has_arc g (o, d, time, cost)` (the dict holds an arc o -> d with this time and cost) holds EXACTLY
+     for the requests of `spec_arc` that pass the timing filter on the node table, where spec_arc is
+       supply visit -> demand visit : time = dist(sp,dp)/speed, cost = dist(sp,dp)*unit + fee_d(dp)
+       demand visit -> supply visit : time = dist(sp,dp)/speed, cost = dist(sp,dp)*unit + fee_s(sp)
+       visit -> Depot               : (exit time, exit cost), for every regular node
+       Depot -> supply visit        : (entry time, entry cost), if the window ends < limit
+       Depot -> Dum_i               : (0, 0), i < number of early demand visits
+       Dum_i -> i-th early demand visit : (entry time, entry cost);
+   - every regular node has its exit arc: that arc always passes the filter because the depot window
+     end is infinite (MIRP.__init__ creates the depot with the default window (0, inf)). *)
+Theorem C12_arcset : forall size H ports dist speed unit fs fd etm ec limit ntm nc,
+  0 < size -> ports_ok size ports -> ~ speed == 0 -> tables_complete ports dist fs fd ->
+  let ops := canonical_ops ports dist speed unit fs fd etm ec limit ntm nc in
+  let g := gr (mrun ops (init_state size H)) in
+  mtrace ops (init_state size H)
+    = map (fun p => Ok (Some (p_vnames size H p))) ports ++ [Ok None; Ok None; Ok None] /\
+  mnodes g = nodes_after size H ports ++ dum_nodes size 0 (length (c_early size H ports limit)) /\
+  NoDup (map fst (marcs g)) /\
+  (forall k a, In (k, a) (marcs g) ->
+     pos_of (aorig a) (mnodes g) = Some (fst k) /\ pos_of (adest a) (mnodes g) = Some (snd k) /\
+     has_arc g (aorig a, adest a, att a, acost a)) /\
+  (forall x, has_arc g x <->
+             spec_arc size H ports dist speed unit fs fd etm ec limit ntm nc x /\ passes (mnodes g) x) /\
+  (forall p k, In p ports -> (k < pK size H p)%nat -> has_arc g (NVisit (pname p) k, NDepot, etm, ec)).
+Proof. exact arcset_final. Qed.
+Print Assumptions C12_arcset.
+
+(* at most one specified arc per ordered pair of nodes: the set above is a function of (o, d) *)
+Theorem C12_arcset_functional : forall size H ports dist speed unit fs fd etm ec limit ntm nc x y,
+  NoDup (map pname ports) ->
+  spec_arc size H ports dist speed unit fs fd etm ec limit ntm nc x ->
+  spec_arc size H ports dist speed unit fs fd etm ec limit ntm nc y ->
+  rkey x = rkey y -> x = y.
+Proof. intros. eapply spec_arc_functional; eauto. Qed.
+Print Assumptions C12_arcset_functional.
+
+(* Non-vacuity: one supply port (init 1, rate 3/2, cap 5) and one demand port (init 4, rate -1, cap 5),
+   cargo 3, horizon 10, entry limit 5: the hypotheses of C12_arcset hold, the build has 4 + 3 visits,
+   one dummy vessel and 24 arcs; the walk Depot, Dum0, D-0, S-1, D-1, Depot is a depot-to-depot path with
+   loads 3, 0, 3, 0, 0. *)
+Definition ex_ports := [mkP 1 1 (3#2) 5; mkP 11 4 (-(1)) 5].
+Definition ex_ops := canonical_ops ex_ports [((1%nat, 11%nat), 5#2)] 2 (1#2) [(1%nat, 7)] [(11%nat, 9)] 0 0 5 0 0.
+Example C12_instance :
+  ports_ok 3 ex_ports /\ tables_complete ex_ports [((1%nat, 11%nat), 5#2)] [(1%nat, 7)] [(11%nat, 9)] /\
+  NoDup (ports_of ex_ops) /\
+  let g := gr (mrun ex_ops (init_state 3 10)) in
+  length (mnodes g) = 9%nat /\ length (marcs g) = 24%nat /\
+  walk_ok g 0 [8%nat; 5%nat; 2%nat; 6%nat; 0%nat] /\ interior_ok [8%nat; 5%nat; 2%nat; 6%nat; 0%nat] /\
+  list_eqb Qeq_bool (loads g 0 [8%nat; 5%nat; 2%nat; 6%nat; 0%nat]) [3; 0; 3; 0; 0] = true.
+Proof.
+  split; [|split; [|split]].
+  - split.
+    + simpl. repeat constructor; simpl; intuition discriminate.
+    + intros p [<-|[<-|[]]]; simpl; split; try discriminate; unfold Qle; simpl; lia.
+  - intros sp dp [<-|[<-|[]]] S1 [<-|[<-|[]]] S2; try discriminate; simpl; repeat split; discriminate.
+  - simpl. repeat constructor; simpl; intuition discriminate.
+  - vm_compute. repeat split; try reflexivity; discriminate.
+Qed.
